@@ -141,20 +141,16 @@ class ReactionSummary(Summary):
 
         """
 
-        if "minimum" in self._flux.columns and "maximum" in self._flux.columns:
-            frame = self._flux.loc[
-                (self._flux["flux"].abs() >= threshold)
-                | (self._flux["minimum"].abs() >= threshold)
-                | (self._flux["maximum"].abs() >= threshold),
-                :,
-            ].copy()
+        # The summary describes exactly one reaction: values below the threshold
+        # are shown as zero instead of dropping the only row of the frame.
+        frame = self._flux.where(self._flux.abs() >= threshold, 0.0) + 0.0
+        if "minimum" in frame.columns and "maximum" in frame.columns:
             return (
                 f"{frame.at[self._reaction.id, 'flux']:{float_format}} "
                 f"[{frame.at[self._reaction.id, 'minimum']:{float_format}}; "
                 f"{frame.at[self._reaction.id, 'maximum']:{float_format}}]"
             )
         else:
-            frame = self._flux.loc[self._flux["flux"].abs() >= threshold, :].copy()
             return f"{frame.at[self._reaction.id, 'flux']:{float_format}}"
 
     def to_string(
